@@ -775,6 +775,11 @@ def build_pipeline_inspection(
             created_keys.add(node.context_key)
             key_origin[node.context_key] = index
 
+        # Validate parameter availability against keys deleted by earlier nodes
+        # (this node's own suppressions take effect after it has read its parameters,
+        # and so do the keys it re-creates itself)
+        missing_deleted = required_params & deleted_keys
+
         # Update key origin tracking for all created keys
         for key in created_keys:
             if key in deleted_keys:
@@ -782,10 +787,6 @@ def build_pipeline_inspection(
                 deleted_keys.remove(key)
             # the latest writer is the one later nodes read from
             key_origin[key] = index
-
-        # Validate parameter availability against keys deleted by earlier nodes
-        # (this node's own suppressions take effect after it has read its parameters)
-        missing_deleted = required_params & deleted_keys
 
         # Analyze context key suppression/deletion
         suppressed_keys = set()
